@@ -244,6 +244,12 @@ def search(ctx):
         blob = bytes(r.randrange(256) for _ in range(ln))
         run({"k": "v"}, [({0xC3: b"\x02"}, blob, r.choice([None, 1, ln]), False)], B.rkey(r), 5, "text")
     run({}, [], bytes(16), 5, "text")
+    # sizes that cross a byte boundary of a field: > 255 entries (IV index, directory size > 2^8 / 2^16),
+    # a payload > 65535 bytes (stored length, addresses)
+    many = [({}, bytes([1 + j % 255]), None, False) for j in range(257 if ctx.quick() else 1500)]
+    run({}, many, B.rkey(r), 65535, "binary")
+    run({}, [({0xC3: b"\x02"}, bytes(r.randrange(256) for _ in range(70001)), 65537, False),
+             ({}, b"tail", None, False)], B.rkey(r), 5, "binary")
     for i in range(n):
         cm, comps = B.gen_file(r, enc_prob=0.15)
         key = B.rkey(r)
